@@ -332,7 +332,7 @@ func initAtoms(o *OptNode) []any {
 
 func zeroText(vt string) string {
 	switch vt {
-	case "string", "um":
+	case "string", "um", "cc":
 		return ""
 	case "bool", "tb":
 		return "false"
